@@ -32,7 +32,7 @@ ACTIONS = ["Subset", "RemoveRows", "Split", "Intersect", "DropDup", "MergeRenumb
            "RenumberParticles", "RenumberObjects", "Fork"]
 
 
-def cfg(init, depth, mode, *, valseqs="MCValSeqs", dyn=False, sched=False, third=False, orders="MCOrders", nscore=2, minrows=0, maxrows=8, clauses=True):
+def cfg(init, depth, mode, *, valseqs="MCValSeqs", dyn=False, sched=False, third=False, orders="MCOrders", nscore=2, minrows=0, maxrows=8, clauses=True, emit="EmitTRSel"):
     lines = ["SPECIFICATION Spec", "CONSTANTS", " InitPairs <- %s" % init, " ValSeqs <- %s" % valseqs,
              " DynVals = %s" % ("TRUE" if dyn else "FALSE"), " SplitFields <- MCSplitFields", " Starts <- MCStarts", " Orders <- %s" % orders,
              " NScore = %d" % nscore, " MinRows = %d" % minrows, " ThirdGuard = %s" % ("TRUE" if third else "FALSE"), " MaxRows = %d" % maxrows, " MaxDepth = %d" % depth, " Sched = %s" % ("TRUE" if sched else "FALSE"),
@@ -40,7 +40,7 @@ def cfg(init, depth, mode, *, valseqs="MCValSeqs", dyn=False, sched=False, third
     if clauses:
         lines += ["PROPERTY %s" % c for c in CLAUSES]
     if mode == "tr":
-        lines += ["ACTION_CONSTRAINT EmitTRSel", "VIEW View"]
+        lines += ["ACTION_CONSTRAINT %s" % emit, "VIEW View"]
     elif mode == "hist":
         lines += ["CONSTRAINT EmitHist"]
     else:
@@ -159,9 +159,12 @@ def apply_op(cm, A, B, op, variant):
         k = op["k"] - 1
         return (parts[k] if k < len(parts) else Motl()), parts
     if name == "intersect":
-        if variant % 2:
-            return Motl.get_motl_intersection(A, B, feature_id="subtomo_id"), None
-        return Motl.get_motl_intersection(A, B), None
+        f = op.get("f", "sid")
+        if f == "sid" and variant % 2 == 0:
+            return Motl.get_motl_intersection(A, B), None
+        if variant % 3 == 0:
+            return Motl.get_motl_intersection(A, B, KEYCOL[f]), None
+        return Motl.get_motl_intersection(A, B, feature_id=KEYCOL[f]), None
     if name == "dropdup":
         if op["f"] == "sid" and not op["asc"] and variant % 2 == 0:
             A.drop_duplicates()
@@ -370,6 +373,62 @@ def write_inits(ctx, name, sizes):
     return path
 
 
+def gen_overlap_pair(rng):
+    """A pair for single-call tests on medium tables: the first table repeats values of every key column, the second
+    one has many (20..60) distinct values per identifier column and lacks some of the values the first one repeats."""
+    bases = (0, 0, 0, 0) if rng.random() < 0.5 else tuple(rng.choice(BASE_CHOICES) for _ in range(4))
+    na, nb = rng.randint(8, 60), rng.randint(20, 60)
+    pool_s = max(3, int(na * rng.choice([0.3, 0.5, 0.8])))            # sid values of A (repeated)
+    pool_o = max(3, int(na * rng.choice([0.2, 0.5])))
+    ntomo, ncls = rng.randint(1, 4), rng.randint(1, 3)
+    a = [[bases[0] + rng.randint(1, pool_s), bases[1] + rng.randint(1, ntomo), bases[2] + rng.randint(1, pool_o),
+          rng.randint(1, NSCORE_SIM), bases[3] + rng.randint(1, ncls), i + 1] for i in range(na)]
+    # B: distinct values drawn from a range that covers A's pool only partly
+    span_s = list(range(1, pool_s + nb + 10))
+    span_o = list(range(1, pool_o + nb + 10))
+    drop_s = set(rng.sample(range(1, pool_s + 1), max(1, pool_s // 3)))
+    drop_o = set(rng.sample(range(1, pool_o + 1), max(1, pool_o // 3)))
+    cand_s = [v for v in span_s if v not in drop_s]
+    cand_o = [v for v in span_o if v not in drop_o]
+    rng.shuffle(cand_s)
+    rng.shuffle(cand_o)
+    b = []
+    for i in range(nb):
+        sid = cand_s[i % len(cand_s)] if rng.random() < 0.9 else rng.choice(cand_s)
+        obj = cand_o[i % len(cand_o)] if rng.random() < 0.9 else rng.choice(cand_o)
+        b.append([bases[0] + sid, bases[1] + rng.randint(1, ntomo + 1), bases[2] + obj, rng.randint(1, NSCORE_SIM),
+                  bases[3] + rng.randint(1, ncls + 1), 500 + i + 1])
+    return {"a": a, "b": b}
+
+
+def medium_transitions(ctx, judge, npairs, budget):
+    """Depth-1 transitions (every operation and parameter choice) from driver-written medium tables."""
+    rng = random.Random(ctx.seed * 6151 + 5)
+    path = os.path.join(ctx.sub("tr_medium"), "inits.ndjson")
+    with open(path, "w") as fh:
+        for _ in range(npairs):
+            fh.write(json.dumps(gen_overlap_pair(rng)) + "\n")
+    res = ctx.tlc("MC_MotlSet", cfg("FileInits", 1, "tr", valseqs="SimValSeqs", dyn=True, third=True, nscore=NSCORE_SIM,
+                                    minrows=2, maxrows=200, emit="EmitTR", clauses=False),
+                  name="tr_medium", workers=1, env={"INIT_FILE": path, "MC_SEED": ctx.seed, "MC_EMITMOD": 1})
+    trs = res.records
+    if not trs:
+        raise core.MachineryError("no medium-table transition emitted\n%s" % res.stdout[-1500:])
+    keyed = sorted(trs, key=lambda t: core.stable_hash([ctx.seed, t]))
+    by_kind = {}
+    for t in keyed:
+        by_kind.setdefault(t["op"]["name"] + t["op"].get("f", ""), []).append(t)
+    if not any(k.startswith("intersect") for k in by_kind):
+        raise core.MachineryError("coverage hole: no intersection among the medium-table transitions")
+    share = max(1, budget // len(by_kind))
+    chosen = [t for k in sorted(by_kind) for t in by_kind[k][:(4 * share if k.startswith("intersect") else share)]]
+    ctx.extra["medium_transitions_emitted"] = len(trs)
+    ctx.extra["medium_transitions_replayed"] = len(chosen)
+    for i, t in enumerate(chosen):
+        run_history(ctx, judge, t["a0"], t["b0"], [{"op": t["op"], "a": t["a"], "bch": t["b"] != t["b0"], "b": t["b"]}],
+                    variant=(ctx.seed * 104729 + i) % 100003, kind="transition", sample_all=(i % 20 == 0))
+
+
 def simulate(ctx, judge, name, sizes, nsim, maxrows, minrows, clauses, sample_all, cap, third=False):
     path = write_inits(ctx, name, sizes)
     res = ctx.tlc("MC_MotlSet", cfg("FileInits", 10, "hist", valseqs="SimValSeqs", dyn=True, sched=True, nscore=NSCORE_SIM,
@@ -447,6 +506,8 @@ def run(ctx):
         for i, t in enumerate(chosen):
             run_history(ctx, judge, t["a0"], t["b0"], [{"op": t["op"], "a": t["a"], "bch": t["b"] != t["b0"], "b": t["b"]}],
                         variant=(ctx.seed * 7919 + i) % 100003, kind="transition", sample_all=(i % 10 == 0))
+    if want("trm"):
+        medium_transitions(ctx, judge, ctx.pick(24, 300), ctx.pick(500, 12000))
     if want("sim"):
         rng = random.Random(ctx.seed + 17)
         small = [rng.randint(0, 8) for _ in range(ctx.pick(40, 300))]
